@@ -54,7 +54,7 @@ def body(c):
     c.add_samples([{k: v for k, v in wide[3][0].items() if k != "groups"} | {"n_groups": len(wide[3][0]["groups"])}])
     # negative controls
     b = copy.deepcopy(next(t for t in traces if t[0]["bits"] == 4))
-    n1 = copy.deepcopy(b); n1[0]["groups"][0]["dq"][1] += 3            # more than half a step off (quarter units: 3 > 2)
+    n1 = copy.deepcopy(b); n1[0]["groups"][0]["dq"][1] += 9            # more than two steps off (quarter units), whatever the original error was
     n2 = copy.deepcopy(b); n2[0]["out_shape"] = n2[0]["out_shape"][::-1] + [1]
     n3 = copy.deepcopy(b); n3[0]["payload_equal"] = False; n3[0]["fmt"] = "float32"; n3[0]["out_dtype"] = "float32"; n3[0]["scale_dtype"] = "float32"
     c.negative_controls("Trace_QAff", [("dq-off", n1), ("shape-not-restored", n2), ("not-idempotent", n3)],
